@@ -1,0 +1,84 @@
+// SPDX-FileCopyrightText: 2022-present Intel Corporation
+//
+// SPDX-License-Identifier: Apache-2.0
+
+//go:build verif
+
+// Contracts for the deductive verifier in /verif (govc). Comment-only: this file contains no code
+// and is excluded from every build that does not set the "verif" tag.
+
+package transaction
+
+//@ import configapi "github.com/onosproject/onos-api/go/onos/config/v2"
+
+// Ghost snapshot of the transaction as read.
+//@ ghost configapi.Transaction.tracked bool
+//@ ghost configapi.Transaction.snapInit int
+//@ ghost configapi.Transaction.snapValidate int
+//@ ghost configapi.Transaction.snapCommit int
+//@ ghost configapi.Transaction.snapApply int
+//@ ghost configapi.Transaction.snapAbort int
+//@ ghost configapi.Transaction.snapState int
+//@ ghost configapi.Transaction.snapIndex int
+//@ ghost configapi.Transaction.snapDetailsTag int
+//@ ghost configapi.Transaction.snapProposalsArr int
+//@ ghost configapi.Transaction.snapProposalsLen int
+
+//@ ghost txnStatusWrites int
+//@ ghost txnCreates int
+//@ ghost lastTxnGetOK bool
+// what GetByIndex found, per index, during this step
+//@ ghost txnFound map[int]bool
+//@ ghost txnIsChange map[int]bool
+//@ ghost txnInitDone map[int]bool
+//@ ghost txnLooked map[int]bool
+
+//@ spec tInitState(t *configapi.Transaction) int = ite(t.Status.Phases.Initialize == nil, 0 - 1, t.Status.Phases.Initialize.State)
+//@ spec tValidateState(t *configapi.Transaction) int = ite(t.Status.Phases.Validate == nil, 0 - 1, t.Status.Phases.Validate.State)
+//@ spec tCommitState(t *configapi.Transaction) int = ite(t.Status.Phases.Commit == nil, 0 - 1, t.Status.Phases.Commit.State)
+//@ spec tApplyState(t *configapi.Transaction) int = ite(t.Status.Phases.Apply == nil, 0 - 1, t.Status.Phases.Apply.State)
+//@ spec tAbortState(t *configapi.Transaction) int = ite(t.Status.Phases.Abort == nil, 0 - 1, t.Status.Phases.Abort.State)
+//@ spec proposalsArr(t *configapi.Transaction) int = arrOf(t.Status.Proposals)
+
+//@ spec txnSnapshotted(t *configapi.Transaction) bool = t.tracked && t.snapInit == tInitState(t) && t.snapValidate == tValidateState(t) && t.snapCommit == tCommitState(t) && t.snapApply == tApplyState(t) && t.snapAbort == tAbortState(t) && t.snapState == t.Status.State && t.snapIndex == t.Index && t.snapDetailsTag == typeTag(t.Details) && t.snapProposalsArr == arrOf(t.Status.Proposals) && t.snapProposalsLen == len(t.Status.Proposals)
+
+// What every stored transaction satisfies (record invariant; established by the guards below at every write).
+//@ spec tStatesInRange(t *configapi.Transaction) bool = (t.Status.Phases.Initialize != nil ==> 0 <= t.Status.Phases.Initialize.State && t.Status.Phases.Initialize.State <= 2) && (t.Status.Phases.Validate != nil ==> 0 <= t.Status.Phases.Validate.State && t.Status.Phases.Validate.State <= 2) && (t.Status.Phases.Commit != nil ==> 0 <= t.Status.Phases.Commit.State && t.Status.Phases.Commit.State <= 1) && (t.Status.Phases.Apply != nil ==> 0 <= t.Status.Phases.Apply.State && t.Status.Phases.Apply.State <= 2) && (t.Status.Phases.Abort != nil ==> 0 <= t.Status.Phases.Abort.State && t.Status.Phases.Abort.State <= 1) && 0 <= t.Status.State && t.Status.State <= 4
+//@ spec txnInv(t *configapi.Transaction) bool = tStatesInRange(t) && (t.Status.Phases.Commit != nil ==> t.Status.Phases.Validate != nil && t.Status.Phases.Validate.State == configapi.TransactionValidatePhase_VALIDATED) && (t.Status.Phases.Apply != nil ==> t.Status.Phases.Commit != nil && t.Status.Phases.Commit.State == configapi.TransactionCommitPhase_COMMITTED) && (t.Status.Phases.Abort != nil ==> t.Status.Phases.Commit == nil) && (t.Status.Phases.Validate != nil ==> t.Status.Phases.Initialize != nil && t.Status.Phases.Initialize.State == configapi.TransactionInitializePhase_INITIALIZED) && (t.Status.State == configapi.TransactionStatus_FAILED ==> t.Status.Failure != nil && (tInitState(t) == 2 || tValidateState(t) == 2 || tApplyState(t) == 2)) && (t.Status.State == configapi.TransactionStatus_VALIDATED ==> tValidateState(t) == configapi.TransactionValidatePhase_VALIDATED) && (t.Status.State == configapi.TransactionStatus_COMMITTED ==> tCommitState(t) == configapi.TransactionCommitPhase_COMMITTED) && (t.Status.State == configapi.TransactionStatus_APPLIED ==> tApplyState(t) == configapi.TransactionApplyPhase_APPLIED)
+
+//@ spec txnWellFormed(t *configapi.Transaction) bool = t.Details != nil && (isType(t.Details, "*configapi.Transaction_Change") ==> asType(t.Details, "*configapi.Transaction_Change") != nil && asType(t.Details, "*configapi.Transaction_Change").Change != nil) && (isType(t.Details, "*configapi.Transaction_Rollback") ==> asType(t.Details, "*configapi.Transaction_Rollback") != nil && asType(t.Details, "*configapi.Transaction_Rollback").Rollback != nil) && (isType(t.Details, "*configapi.Transaction_Change") || isType(t.Details, "*configapi.Transaction_Rollback")) && t.Index > 0
+
+//@ spec stateForward(was int, now int) bool = (was == configapi.TransactionStatus_FAILED ==> now == configapi.TransactionStatus_FAILED) && (now != configapi.TransactionStatus_FAILED ==> now >= was)
+
+//@ iface Store.Get(ctx, id) (result, err)
+//@   modifies lastTxnGetOK
+//@   ensures lastTxnGetOK == (err == nil)
+//@   ensures err != nil ==> result == nil
+//@   ensures err == nil ==> result != nil && fresh(result) && txnSnapshotted(result) && txnWellFormed(result) && txnInv(result)
+
+//@ iface Store.GetByIndex(ctx, index) (result, err)
+//@   modifies lastTxnGetOK, txnFound[index], txnIsChange[index], txnInitDone[index], txnLooked[index]
+//@   ensures lastTxnGetOK == (err == nil)
+//@   ensures txnFound[index] == (err == nil) && txnIsChange[index] == (err == nil && isType(result.Details, "*configapi.Transaction_Change")) && txnInitDone[index] == (err == nil && tInitState(result) >= 1)
+// (assumed) between two reads in one reconcile step a transaction neither appears nor disappears, keeps its kind, and its phases only advance
+//@   ensures old(txnLooked[index]) ==> txnFound[index] == old(txnFound[index]) && txnIsChange[index] == old(txnIsChange[index]) && (old(txnInitDone[index]) ==> txnInitDone[index])
+//@   ensures txnLooked[index]
+//@   ensures err != nil ==> result == nil
+//@   ensures err == nil ==> result != nil && fresh(result) && txnSnapshotted(result) && txnWellFormed(result) && txnInv(result) && result.Index == index
+
+//@ iface Store.UpdateStatus(ctx, transaction) (err)
+//@   requires transaction != nil
+//@   guard {C01,C02,C07} txn.read-before-write: transaction.tracked
+//@   guard {C01,C02,C07} txn.phase-forward: phaseForward(transaction.snapInit, tInitState(transaction)) && phaseForward(transaction.snapValidate, tValidateState(transaction)) && phaseForward(transaction.snapCommit, tCommitState(transaction)) && phaseForward(transaction.snapApply, tApplyState(transaction)) && phaseForward(transaction.snapAbort, tAbortState(transaction))
+//@   guard {C01,C02,C07,C08} txn.state-forward: stateForward(transaction.snapState, transaction.Status.State)
+//@   guard {C01} txn.commit-needs-validated: transaction.Status.Phases.Commit != nil ==> transaction.Status.Phases.Validate != nil && transaction.Status.Phases.Validate.State == configapi.TransactionValidatePhase_VALIDATED
+//@   guard {C02} txn.apply-needs-committed: transaction.Status.Phases.Apply != nil ==> transaction.Status.Phases.Commit != nil && transaction.Status.Phases.Commit.State == configapi.TransactionCommitPhase_COMMITTED
+//@   guard {C01} txn.no-abort-after-commit: transaction.Status.Phases.Abort != nil ==> transaction.Status.Phases.Commit == nil
+//@   guard {C01,C08} txn.failed-has-failure: transaction.Status.State == configapi.TransactionStatus_FAILED ==> transaction.Status.Failure != nil && (tInitState(transaction) == 2 || tValidateState(transaction) == 2 || tApplyState(transaction) == 2)
+//@   guard {C01,C08} txn.state-matches-phase: (transaction.Status.State == configapi.TransactionStatus_VALIDATED ==> tValidateState(transaction) == configapi.TransactionValidatePhase_VALIDATED) && (transaction.Status.State == configapi.TransactionStatus_COMMITTED ==> tCommitState(transaction) == configapi.TransactionCommitPhase_COMMITTED) && (transaction.Status.State == configapi.TransactionStatus_APPLIED ==> tApplyState(transaction) == configapi.TransactionApplyPhase_APPLIED)
+//@   guard {C01,C07} txn.proposals-set-once: transaction.snapProposalsArr != 0 ==> arrOf(transaction.Status.Proposals) == transaction.snapProposalsArr && len(transaction.Status.Proposals) == transaction.snapProposalsLen
+//@   guard {C01,C07} txn.details-immutable: transaction.Index == transaction.snapIndex && typeTag(transaction.Details) == transaction.snapDetailsTag
+//@   modifies transaction.ObjectMeta, transaction.tracked, transaction.snapInit, transaction.snapValidate, transaction.snapCommit, transaction.snapApply, transaction.snapAbort, transaction.snapState, transaction.snapIndex, transaction.snapDetailsTag, transaction.snapProposalsArr, transaction.snapProposalsLen, txnStatusWrites
+//@   ensures txnStatusWrites == old(txnStatusWrites) + 1
+//@   ensures err == nil ==> txnSnapshotted(transaction)
+//@   ensures err != nil ==> !transaction.tracked
